@@ -21,6 +21,14 @@ CLAIMED.update({
              text="Decides: every swap_K_indices swaps definition, flag, properties (half kinds side by side) and cache under identical conditions; self-swap returns before any effect; processed-set protocol (scope, find/insert key = rewritten entry); rewrite tests in both the cache-guided and linear branches. Not decided: involution / untouched others as behaviour.",
              design="3/C17, 2/L"),
 })
+CLAIMED.update({
+ "C07": dict(technique="static analysis: interprocedural byte-budget propagation (rule B) through templates/generic lambdas/virtual codecs, guard-based range/result/empty-sequence rules, loop-exit classification, exception-escape reachability with lexical try regions",
+             text="Decides structural necessary conditions of reader memory safety and termination for every byte string: every decoder byte consumption is budgeted before the decoder's creation site; every handle built from a decoded integer is range-checked on that very expression against the right counter (and from below when signed); add_face/add_cell results fail the read; sequence parameters are size-tested before front/back/[k]; every reader loop has a robust exit; no non-allocation throw escapes the readers. Not decided: semantic validity of an accepted mesh beyond handle ranges.",
+             design="3/C07, 2/B"),
+ "C18": dict(technique="static analysis: CFG path rules over the ReadState protocol (no success after an error state, re-test after every chunk reader), must-hold guard sets at return Ok, validation must-pass-through table, stream-state rules for reader and writer",
+             text="Decides: no path from an error ReadState to a success result; chunk readers leave/guard after an error; callers re-test state_; return Ok requires stream exhausted, EOF chunk seen and header counts equal mesh counts; header/chunk/span validations present on the CFG; the reader never clears the stream state (sticky failbit + mandatory EOF chunk turn stream failures into errors); the writer returns Ok only under ostream.good() after the last write. Not decided: that every inconsistent header byte is caught (only the listed validations).",
+             design="3/C18"),
+})
 NOT_YET = {}
 NA = {
  "C10": "soundness/completeness of the lookup queries against a brute-force search is an equality over runtime values of small search loops; no structural necessary condition exists that is not a brittle proxy (DESIGN 3/C10)",
